@@ -1,17 +1,19 @@
-"""Run in the implementation's environment. stdin: {"cases": [{"groups": [{"elem":..., "maps": [{"A":..,"b":..},...]}, ...]}]}
-Each case is a hand-made mesh whose element groups (in the given dict order) are affine images of the
-reference elements with disjoint node sets; prints Mesh.length/area/volume and Mesh.center, and the
-per-group measures and centres."""
+"""Run in the implementation's environment. stdin: {"cases": [{"groups": [{"elem":..., "maps": [{"A3": dim x 3, "b3": [3]}, ...]}, ...],
+"ops": [["observe"], ["queries"], ["translate", [tx,ty,tz]], ["symmetry", [p], [n]], ["rotate90z", [p]], ...]}]}
+Each case is a hand-made mesh whose element groups (in the given dict order) are affine images x = b3 + xi @ A3 of
+the reference elements (any dimension, embedded in 3-D) with disjoint node sets.  The ops are applied in order to
+the SAME mesh object; every "observe" appends {length, area, volume, center} (None where the mesh dimension does
+not define it)."""
 import json, sys
 import numpy as np
 from EasyFEA.FEM._group_elem import GroupElemFactory
-from EasyFEA.FEM._utils import ElemType
+from EasyFEA.FEM._utils import ElemType, MatrixType
 from EasyFEA.FEM._mesh import Mesh
 
 req = json.load(sys.stdin)
 out = []
 for c in req["cases"]:
-    r = {}
+    r = {"obs": []}
     try:
         blocks, conns, off = [], [], 0
         for g in c["groups"]:
@@ -21,21 +23,48 @@ for c in req["cases"]:
             loc = np.asarray(cls(gid, np.arange(nPe).reshape(1, -1), np.zeros((nPe, 3))).Get_Local_Coords(), dtype=float)
             con = []
             for m in g["maps"]:
-                xyz = np.zeros((nPe, 3))
-                xyz[:, :dim] = loc @ np.array(m["A"], dtype=float) + np.array(m["b"], dtype=float)
-                blocks.append(xyz)
+                blocks.append(loc @ np.array(m["A3"], dtype=float) + np.array(m["b3"], dtype=float))
                 con.append(np.arange(off, off + nPe))
                 off += nPe
             conns.append((et, gid, cls, np.array(con)))
         coords = np.vstack(blocks)
-        d = {et: cls(gid, con, coords) for et, gid, cls, con in conns}
-        mesh = Mesh(d)
-        dim = mesh.dim
-        r["dim"] = dim
-        r["measure"] = float((mesh.length, mesh.area, mesh.volume)[dim - 1])
-        r["center"] = [float(x) for x in np.asarray(mesh.center).ravel()]
-        r["groups"] = [{"elem": str(et.name), "measure": float((g.length, g.area, g.volume)[g.dim - 1]),
-                        "center": [float(x) for x in np.asarray(g.center).ravel()]} for et, g in d.items()]
+        mesh = Mesh({et: cls(gid, con, coords) for et, gid, cls, con in conns})
+        rng = np.random.default_rng(12345)
+        for op in c["ops"]:
+            if op[0] == "observe":
+                o = {}
+                for k in ("length", "area", "volume"):
+                    v = getattr(mesh, k)
+                    o[k] = None if v is None else float(v)
+                o["center"] = [float(x) for x in np.asarray(mesh.center).ravel()]
+                o["coord_finite"] = bool(np.isfinite(mesh.coord).all())
+                r["obs"].append(o)
+            elif op[0] == "queries":
+                # documented read-only queries, with and without a (non-affine) displacement field
+                U = rng.uniform(-1, 1, (mesh.Nn, 3)) * float(np.ptp(mesh.coord, axis=0).max()) * 0.1
+                for grp in mesh.dict_groupElem.values():
+                    for mt in (MatrixType.mass, MatrixType.rigi):
+                        grp.Get_GaussCoordinates_e_pg(mt)
+                        try:
+                            grp.Get_GaussCoordinates_e_pg(mt, displacementMatrix=U)
+                        except TypeError:
+                            pass
+                try:
+                    mesh.Get_normals(displacementMatrix=U)
+                except Exception:
+                    pass
+                try:
+                    mesh.Get_normals()
+                except Exception:
+                    pass
+            elif op[0] == "translate":
+                mesh.Translate(*op[1])
+            elif op[0] == "symmetry":
+                mesh.Symmetry(tuple(op[1]), tuple(op[2]))
+            elif op[0] == "rotate90z":
+                mesh.Rotate(90.0, tuple(op[1]), (0, 0, 1))
+            elif op[0] == "scale":
+                mesh.coord = mesh.coord * op[1]
     except Exception as ex:
         r["raises"] = "%s: %s" % (type(ex).__name__, str(ex)[:200])
     out.append(r)
